@@ -414,12 +414,22 @@ class Out(object):
 # bytes lines, the parser "supports both lists of lines without the trailing newline and those with";
 # parse_changelog() of an existing object takes the same.  These are the forms in which a text arrives:
 TEXT_FORMS = ("str", "bytes", "reuse_str", "reused_text")       # the "empty changelog file" rule applies
-LINE_FORMS = ("stringio", "bytesio", "file", "list_nl", "list", "list_bytes", "iter", "tuple", "reuse_list", "reused_obj")
+# file-object KINDS (notes/SIZE_STRESS.md part 4; the parser only iterates, so anything that yields lines):
+#   file        real file, text mode, buffered          file_bin    real file, binary, buffered
+#   file_unbuf  real file, binary, buffering=0 (FileIO) short_reads io.BufferedReader over a raw stream that
+#   gzip        gzip.GzipFile over a REAL file holding                returns 1 .. 7 bytes per read
+#               the compressed bytes (fileno() names    bz2 / lzma  BZ2File / LZMAFile over compressed bytes
+#               the compressed file)                    spooled     tempfile.SpooledTemporaryFile (rolled over
+#   textwrap    io.TextIOWrapper over BytesIO                         to a real file when the text is long)
+#   iter_bytes  a plain generator of bytes lines
+FILE_KINDS = ("file_bin", "file_unbuf", "short_reads", "gzip", "bz2", "lzma", "spooled", "textwrap", "iter_bytes")
+LINE_FORMS = ("stringio", "bytesio", "file", "list_nl", "list", "list_bytes", "iter", "tuple", "reuse_list", "reused_obj") + FILE_KINDS
 BASE_TEXT = ("str", "bytes")
-BASE_LINES = ("stringio", "bytesio", "file", "list_nl", "list", "list_bytes", "iter", "tuple")
+BASE_LINES = ("stringio", "bytesio", "file", "list_nl", "list", "list_bytes", "iter", "tuple") + FILE_KINDS
 FORMS = TEXT_FORMS + LINE_FORMS
-# for random draws: the in-memory forms mostly, a real temporary file now and then
-FORMS_W = [f for f in FORMS if f != "file"] * 3 + ["file"]
+# for random draws: the in-memory forms mostly, real temporary files and the slow compressors now and then
+SLOW_FORMS = ("file", "file_bin", "file_unbuf", "gzip", "bz2", "lzma")
+FORMS_W = [f for f in FORMS if f not in SLOW_FORMS] * 3 + list(SLOW_FORMS)
 OTHER_TEXT = "other (0.1) unstable; urgency=low\n\n  * other\n\n -- O T <o@t>  Mon, 01 Jan 2001 10:00:00 +0000\n"
 
 
@@ -427,9 +437,80 @@ def form_kind(form):
     return "text" if form in TEXT_FORMS else "lines"
 
 
+class ShortRaw(object):
+    """factory of a raw stream that hands out 1 .. 7 bytes per read (for very long inputs now and then a
+    few thousand, to keep the number of calls bounded)"""
+
+    @staticmethod
+    def open(data):
+        import io
+
+        class _Raw(io.RawIOBase):
+            def __init__(self):
+                io.RawIOBase.__init__(self)
+                self._p = 0
+                self._n = 0
+
+            def readable(self):
+                return True
+
+            def readinto(self, b):
+                self._n += 1
+                k = 1 + (self._p * 7919 + self._n) % 7
+                if len(data) > 65536 and self._n % 4 == 0:
+                    k = 4093
+                k = min(k, len(b), len(data) - self._p)
+                b[:k] = data[self._p:self._p + k]
+                self._p += k
+                return k
+        return io.BufferedReader(_Raw(), buffer_size=16)
+
+
+def close_source(src):
+    """close what make_source returned (and the real file underneath a decompressor)"""
+    for f in (src, getattr(src, "_verif_under", None)):
+        if f is not None and hasattr(f, "close"):
+            try:
+                f.close()
+            except Exception:       # closing is not under test
+                pass
+
+
 def make_source(text, form):
     import io
     import tempfile
+    if form in FILE_KINDS:
+        data = text.encode("utf-8")
+        if form == "file_bin" or form == "file_unbuf":
+            f = tempfile.TemporaryFile("w+b") if form == "file_bin" else tempfile.TemporaryFile("w+b", buffering=0)
+            f.write(data)
+            f.seek(0)
+            return f
+        if form == "short_reads":
+            return ShortRaw.open(data)
+        if form == "gzip":
+            import gzip
+            under = tempfile.TemporaryFile("w+b")
+            under.write(gzip.compress(data, 1))
+            under.seek(0)
+            g = gzip.GzipFile(fileobj=under, mode="rb")
+            g._verif_under = under
+            return g
+        if form == "bz2":
+            import bz2
+            return bz2.BZ2File(io.BytesIO(bz2.compress(data, 1)))
+        if form == "lzma":
+            import lzma
+            return lzma.LZMAFile(io.BytesIO(lzma.compress(data, preset=0)))
+        if form == "spooled":
+            f = tempfile.SpooledTemporaryFile(max_size=4096, mode="w+b")
+            f.write(data)
+            f.seek(0)
+            return f
+        if form == "textwrap":
+            return io.TextIOWrapper(io.BytesIO(data), encoding="utf-8", newline="\n")
+        if form == "iter_bytes":
+            return (l + b"\n" for l in (data.split(b"\n")[:-1] if data.endswith(b"\n") else data.split(b"\n")))
     if form in ("str", "reuse_str"):
         return text
     if form == "bytes":
@@ -507,8 +588,7 @@ def new_changelog(text, aea, strict, form="str"):
                 except Exception:              # ChangelogParseError of a strict earlier parse, decoding errors ...
                     cl = cl or Changelog()
                 finally:
-                    if hasattr(src, "close"):
-                        src.close()
+                    close_source(src)
                 if rng.random() < 0.5:
                     try:
                         str(cl)
@@ -520,8 +600,7 @@ def new_changelog(text, aea, strict, form="str"):
             cl.parse_changelog(src, allow_empty_author=aea, strict=strict)
             return cl
         finally:
-            if hasattr(src, "close"):
-                src.close()
+            close_source(src)
     src = make_source(text, form)
     try:
         if form.startswith("reuse"):
@@ -530,8 +609,7 @@ def new_changelog(text, aea, strict, form="str"):
             return cl
         return Changelog(src, allow_empty_author=aea, strict=strict)
     finally:
-        if hasattr(src, "close"):          # StringIO / BytesIO / the temporary file / a generator
-            src.close()
+        close_source(src)                  # StringIO / BytesIO / the temporary file / a generator / a decompressor
 
 
 def _latin1_source(text, form):
@@ -691,32 +769,79 @@ def repeat_laws(text, aea, rng, form="str"):
     return None
 
 
-def c15_laws(text, aea, rng=None, form="str"):
-    """the verdict observables of C15 for one text: -> (message or None, info dict).  rng: sometimes the
-    strict parse comes first, sometimes the whole protocol is repeated in random order"""
-    if rng is not None and rng.random() < 0.5:
-        construct(text, aea=aea, strict=True, form=form)
-    len_ = construct(text, aea=aea, strict=False, form=form)
-    info = dict(nwarn=len_.nwarn, fmt=None, nb=None)
-    if len_.exc:
-        return "lenient constructor raised %s" % len_.exc, info
-    st = construct(text, aea=aea, strict=True, form=form)
-    info["strict"] = st.exc
-    if st.exc not in (None, "ChangelogParseError"):
-        return "strict constructor raised %s (only ChangelogParseError is allowed)" % st.exc, info
-    if (st.exc is not None) != (len_.nwarn > 0):
-        return "strict %s but lenient emitted %d warning(s) %r" % (
-            "raised ChangelogParseError" if st.exc else "returned", len_.nwarn, len_.msgs[:3]), info
-    info["nb"] = len(len_.cl)
-    info["cl"] = len_.cl
-    s, err = fmt(len_.cl)
+# the ORDERS in which one text is parsed strict (True) / lenient (False) in one process.  c15.py replaces the
+# default (all orders of 2 and 3 calls) by the call orders TLC enumerated in the "proc" configuration.
+PLANS = [(a, b) for a in (False, True) for b in (False, True)] + \
+        [(a, b, c) for a in (False, True) for b in (False, True) for c in (False, True)]
+
+
+def run_calls(text, calls, form="str"):
+    """one text parsed again and again in this process: calls = [(strict, allow_empty_author)] in order.
+    -> (message or None, observations [dict(s, a, ok, w, sr, msgs, cl)]).  The law is the statement, read
+    across the calls: the lenient constructor returns, the strict one returns or raises ChangelogParseError,
+    and ANY strict call raises exactly when ANY lenient call with the same allow_empty_author warns."""
+    obs = []
+    msg = None
+    for st, a in calls:
+        o = construct(text, aea=a, strict=st, form=form)
+        e = dict(s=bool(st), a=bool(a), ok=True, w=0, sr=False, msgs=[], cl=None)
+        if st:
+            e["sr"] = o.exc == "ChangelogParseError"
+            if o.exc not in (None, "ChangelogParseError"):
+                e["ok"] = False
+                msg = msg or "strict constructor raised %s (only ChangelogParseError is allowed)" % o.exc
+        else:
+            e.update(w=o.nwarn, msgs=o.msgs[:3], cl=o.cl)
+            if o.exc:
+                e["ok"] = False
+                msg = msg or "lenient constructor raised %s" % o.exc
+        obs.append(e)
+    if msg:
+        return msg, obs
+    order = "/".join(("strict" if e["s"] else "lenient") + ("+aea" if e["a"] else "") for e in obs)
+    for ks, x in enumerate(obs):
+        for kl, y in enumerate(obs):
+            if x["s"] and not y["s"] and x["a"] == y["a"] and x["sr"] != (y["w"] > 0):
+                return "strict %s (call %d) but lenient emitted %d warning(s) %r (call %d); the text was parsed %s in this order in one process" % (
+                    "raised ChangelogParseError" if x["sr"] else "returned", ks + 1, y["w"], y["msgs"], kl + 1, order), obs
+    return None, obs
+
+
+def c15_laws(text, aea, rng=None, form="str", plan=None):
+    """the verdict observables of C15 for one text: -> (message or None, info dict).  The text is parsed
+    several times in this process, strict / lenient in the order `plan` (default: one of PLANS; a plan
+    without a lenient resp. strict call gets one appended) -- run_calls; then the normal-form law on what
+    the first lenient call built.  Differing warning COUNTS of the lenient calls are info["repeat_drift"]
+    (diagnostic: the statement speaks of "emits a warning")."""
+    if plan is None:
+        plan = rng.choice(PLANS) if rng is not None else (False, True)
+    plan = [bool(x) for x in plan]
+    if all(plan):
+        plan.append(False)
+    if not any(plan):
+        plan.append(True)
+    info = dict(nwarn=None, fmt=None, nb=None, plan=plan)
+    msg, obs = run_calls(text, [(st, aea) for st in plan], form)
+    lenient = [e for e in obs if not e["s"] and e["ok"]]
+    if lenient:
+        info["nwarn"] = lenient[0]["w"]
+    info["strict"] = next(("ChangelogParseError" if e["sr"] else None for e in obs if e["s"]), None)
+    if msg:
+        return msg, info
+    if len({e["w"] for e in lenient}) > 1:
+        info["repeat_drift"] = "lenient parses of the same text emitted %s warnings (order %s)" % (
+            [e["w"] for e in lenient], "/".join("S" if x else "L" for x in plan))
+    cl = lenient[0]["cl"]
+    info["nb"] = len(cl)
+    info["cl"] = cl
+    s, err = fmt(cl)
     info["fmt"] = s is not None
     if s is None:
         if err != "unformattable":
             return "str() raised %s" % err[4:], info
         return None, info
     info["str"] = s
-    msg = fixpoint(len_.cl, s, aea)
+    msg = fixpoint(cl, s, aea)
     if msg is None and rng is not None and rng.random() < 0.08:
         msg = repeat_laws(text, aea, rng, form)
     return msg, info
@@ -809,8 +934,13 @@ def c04_check(lines, contents, struct, alive=None, form="str", mutate=None):
 
 # ------------------------------------------------------------------ editing calls on the real object
 
+# Unset..: the attribute is assigned None -- the library's own "not set" value (default of every new_block
+# argument; str() answers ChangelogCreateError).  In the domain with the weak law only: whatever the call makes
+# of it (unset, kept as some value, rejected with an exception) the changelog is unformattable or a normal form.
+UNSET_OPS = {"UnsetPackage": "package", "UnsetVersion": "version", "UnsetDistributions": "distributions",
+             "UnsetUrgency": "urgency", "UnsetAuthor": "author", "UnsetDate": "date"}
 EDIT_OPS = ("NewBlockFull", "NewBlockEmpty", "AddBlank", "AddChange", "SetPackage", "SetVersion",
-            "SetDistributions", "SetUrgency", "SetAuthor", "SetDate", "SetVersionWS")
+            "SetDistributions", "SetUrgency", "SetAuthor", "SetDate", "SetVersionWS") + tuple(UNSET_OPS)
 WS_AROUND = ["%s\n", "%s ", "%s\t", "%s\r\n", "%s\n\n", " %s", "\n%s", "%s\u00a0", "%s\x0b", "\ufeff%s"]
 
 
@@ -844,6 +974,8 @@ def conc_edit(rng, op, canonical=False, uid=0):
         return "S A <s@a.b>" if canonical else gen_author(rng)
     if op == "SetDate":
         return "Wed, 03 Jan 2001 10:00:00 +0000" if canonical else gen_date(rng)
+    if op in UNSET_OPS:
+        return None
     raise AssertionError(op)
 
 
@@ -897,6 +1029,17 @@ def apply_edit(cl, op, arg, how=0):
                     cl.set_version(arg)
             except ValueError:
                 return None                    # rejected: the documented outcome for such a value
+        elif op in UNSET_OPS:                # None through the Changelog property, the set_ method, the block
+            attr = UNSET_OPS[op]
+            try:
+                if how % 3 == 0:
+                    setattr(cl, attr, None)
+                elif how % 3 == 1:
+                    getattr(cl, "set_" + attr)(None)
+                else:
+                    setattr(cl[0], attr, None)
+            except Exception:                  # rejected: the statement does not say that None is accepted
+                return None
         elif op == "SetDistributions":
             if how % 2:
                 cl.set_distributions(arg)
@@ -1471,6 +1614,96 @@ def record_parse_trace(lines, aea, wf, doc_every=0, form="str"):
     return dict(kind="parse", aea=aea, wf=wf, form=form_kind(form), lines=evs, text=list(lines), iform=form)
 
 
+def record_proc_trace(lines, aea, calls, form="str"):
+    """call history of one process on one text: calls = [(strict, allow_empty_author)] -- what every call
+    showed, for TLC (TraceChangelog!TProc)"""
+    it = Intern()
+    evs = [line_event(it, l) for l in lines]
+    _msg, obs = run_calls(join(lines), calls, form)
+    return dict(kind="proc", aea=aea, wf=False, form=form_kind(form), lines=evs,
+                ops=[dict(s=e["s"], a=e["a"], ok=e["ok"], w=e["w"], sr=e["sr"]) for e in obs],
+                text=list(lines), calls=[[bool(st), bool(a)] for st, a in calls], iform=form)
+
+
+DEFECTS = {"TopOK": ("TopBadKV", "TopDupKey", "TopBadUrg"), "EndOK": ("EndOneSpace", "EndNoDetails", "Junk"), "Change": ("Junk", "Vim", "Old8")}
+
+
+def gen_single_defect(rng, maxlines=14):
+    """a well-formed changelog in which ONE line was replaced by a defective line of the same role (heading
+    with a damaged key=value list, one-space / bare trailer, junk instead of a change line) -- often the
+    only thing a parser can complain about -- and sometimes the defective line put in twice (identical text)
+    -> (lines, index of the defective line)"""
+    cls, lines, _c = gen_wellformed(rng, maxlines)
+    cand = [i for i, c in enumerate(cls) if c in DEFECTS]
+    i = rng.choice(cand)
+    t, _k = conc_line(rng, rng.choice(DEFECTS[cls[i]]))
+    lines = list(lines)
+    lines[i] = t
+    if rng.random() < 0.3:
+        lines.insert(rng.choice([i, i + 1, rng.randint(0, len(lines))]), t)
+    return lines, i
+
+
+def random_calls(rng, lines):
+    """a random order of 2 .. 6 strict / lenient parses (the other allow_empty_author setting mixed in when
+    the text has a bare ' --' line)"""
+    bare = any(l.startswith(" --") and "<" not in l for l in lines)
+    a0 = rng.random() < 0.5
+    return [(rng.random() < 0.5, (not a0) if bare and rng.random() < 0.3 else a0) for _ in range(rng.choice([2, 3, 3, 4, 6]))]
+
+
+def conc_same(rng, classes, same, canonical=False, stress=False):
+    """conc_text for a text in which TLC says that line i is the very same line as line same[i] (1-based)"""
+    lines, _c = conc_text(rng, classes, canonical=canonical, stress=stress)
+    for i, j in enumerate(same):
+        if j - 1 != i:
+            lines[i] = lines[j - 1]
+    return lines
+
+
+# ---- block-boundary alignment (notes/SIZE_STRESS.md part 4)
+ALIGN_K = (9, 10, 11, 12, 13, 14, 15, 16, 17)
+
+
+def align_lines(lines, j, target, wide=False):
+    """one padding change line is inserted before line j (0-based) so that the text up to and including the
+    newline of line j is exactly `target` UTF-8 bytes (its '\\n' is byte target - 1) -> new lines | None"""
+    off = len(join(lines[:j + 1]).encode("utf-8"))
+    pad = target - off
+    if pad < 8:
+        return None
+    heads = [i for i in range(j) if classify(lines[i])[0] in TOP]
+    p = heads[0] + 1 if heads else 0
+    body = "x" * (pad - 5)
+    if wide:                                # the padding ends in a two-byte character
+        body = "x" * (pad - 7) + "\u0416"
+    out = list(lines)
+    out.insert(p, "  * " + body)
+    assert len(join(out[:j + 2]).encode("utf-8")) == target
+    return out
+
+
+def aligned_positions(lines):
+    """where a line end is steered onto a block boundary: the end of a change line inside a block (inside a
+    value), the end of a later heading, of a blank line between two blocks, of a trailer, the very end"""
+    cls = [classify(l)[0] for l in lines]
+    out = {}
+    seen_top = 0
+    for i, c in enumerate(cls):
+        if c in TOP:
+            seen_top += 1
+            if seen_top >= 2:
+                out.setdefault("heading", i)
+        elif c == "Change" and seen_top:
+            out.setdefault("change", i)
+        elif c in END:
+            out.setdefault("trailer", i)
+        elif c == "Blank" and i and cls[i - 1] in END:
+            out.setdefault("separator", i)
+    out["end"] = len(lines) - 1
+    return out
+
+
 def _start(lines, aea, form="str"):
     from debian.changelog import Changelog
     if not lines:
@@ -1487,10 +1720,12 @@ def gen_call(rng, cl, wf, stress=False):
     names = ["NewBlockFull"] + ([] if wf else ["NewBlockEmpty"])
     if n:
         names += ["AddBlank", "AddChange", "SetPackage", "SetVersion", "SetDistributions", "SetUrgency", "SetAuthor", "SetDate", "SetVersionWS"]
+        if not wf:
+            names += ["UnsetVersion", rng.choice(sorted(UNSET_OPS))]
         names += ["BSet", "BSet", "BSet", "BRest", "BRest", "ChAppend", "ChInsert", "ChDelete", "AddTrailing", "AddTrailing", "Fmt",
                   "MutVer", "MutVer", "Reparse"]
     else:
-        names = [x for x in names if x != "SetVersionWS"]
+        names = [x for x in names if x != "SetVersionWS" and x not in UNSET_OPS]
     op = rng.choice(names)
     i = x = 0
     if op == "Reparse":
@@ -1546,6 +1781,9 @@ def call_event(it, cl, c, text=None, aea=False):
     elif op == "SetVersionWS":
         shown = ver_str(cl[0])
         v = [0 if shown is None or shown != arg else it(shown)]      # 0: rejected (the block shows what it showed before)
+    elif op in UNSET_OPS:                              # what the first block shows afterwards (0: not set)
+        shown = ver_str(cl[0]) if op == "UnsetVersion" else getattr(cl[0], UNSET_OPS[op])
+        v = [it.urg(shown) if op == "UnsetUrgency" and shown is not None else it(shown)]
     elif op in ("ChAppend", "ChInsert"):
         v = [it(arg), 1 if arg == "" else 0]       # by construction '' or a change line
     elif op == "BSet":
@@ -1595,6 +1833,8 @@ def rerecord(trace):
     """re-execute a recorded trace on the current tree (for --replay)"""
     if trace["kind"] == "parse":
         return record_parse_trace(trace["text"], trace["aea"], trace["wf"], form=trace.get("iform", "str"))
+    if trace["kind"] == "proc":
+        return record_proc_trace(trace["text"], trace["aea"], [tuple(c) for c in trace["calls"]], form=trace.get("iform", "str"))
     it = Intern()
     lines = trace["text"]
     evs = [line_event(it, l) for l in lines]
@@ -1609,7 +1849,7 @@ def rerecord(trace):
 
 def strip_trace(t):
     """what TLC gets (concrete text and call arguments stay in the harness)"""
-    return {k: v for k, v in t.items() if k not in ("text", "calls", "iform")}
+    return {k: v for k, v in t.items() if k not in ("text", "calls", "iform", "plan")}
 
 
 # ------------------------------------------------------------------ text generators for the recorders
@@ -1664,6 +1904,29 @@ def mutate(rng, lines, nmut, maxlines):
 def corrupt_trace(t, how):
     """negative controls: traces the specification must reject"""
     t = copy.deepcopy(t)
+    if t["kind"] == "proc":
+        evs = t["ops"]
+        if how == "proc_strict":        # verdict level: a strict call that does not raise although a lenient call warned
+            for e in evs:
+                if e["s"] and e["sr"]:
+                    e["sr"] = False
+                    return t
+        if how == "proc_silent":        # verdict level: a later lenient call is silent, the strict call after it returns
+            seen = False
+            for e in evs:
+                if not e["s"] and e["w"] > 0:
+                    if seen:
+                        e["w"] = 0
+                    seen = True
+            if seen and evs[-1]["s"]:
+                evs[-1]["sr"] = False
+                return t
+        if how == "proc_count":         # diagnostic level: another number of warnings
+            for e in evs:
+                if not e["s"] and e["w"] > 0:
+                    e["w"] += 1
+                    return t
+        return None
     if t["kind"] == "parse":
         evs = t["lines"]
         if not evs:
@@ -1760,13 +2023,26 @@ def golden_traces():
                      op("SetVersion", [18], [dict(new, h=[12, 18, 14, 15]), old]),
                      op("ChInsert", [19], [dict(new, h=[12, 18, 14, 15]), old2], i=2, x=1),
                      op("Fmt", [0], [dict(new, h=[12, 18, 14, 15]), old2], i=2, fobs=True, out=outb)])
-    return [parse, edit]
+    # a process parses  defective heading / change / trailer  lenient, strict, strict, lenient, strict
+    plines = [dict(c="TopBadKV", v=1, h=[2, 3, 4, -1, -1]), dict(c="Change", v=7, h=[]), dict(c="EndOK", v=8, h=[9, 10])]
+
+    def call(st, w=0, sr=False):
+        return dict(s=st, a=False, ok=True, w=w, sr=sr)
+    proc = dict(kind="proc", aea=False, wf=False, form="text", lines=plines,
+                ops=[call(False, w=1), call(True, sr=True), call(True, sr=True), call(False, w=1), call(True, sr=True)])
+    return [parse, edit, proc]
 
 
 def golden_controls():
     """-> (controls for full mode, controls that must also be rejected in verdict mode)"""
-    parse, edit = golden_traces()
+    parse, edit, proc = golden_traces()
     controls, vcontrols = [], []
+    for how in ("proc_strict", "proc_silent", "proc_count"):
+        c = corrupt_trace(proc, how)
+        assert c is not None, how
+        controls.append(c)
+        if how != "proc_count":
+            vcontrols.append(c)
     for how in ("strict", "blocks", "warn", "content", "moved"):
         c = corrupt_trace(parse, how)
         assert c is not None, how
